@@ -42,8 +42,8 @@ RULE = ("each run draws a configuration (lattice/point group, grid, mesh, adpt_f
         "site); non-trivial = at least one restart happened")
 PROBES = ["restart_segments", "boundary_crash", "return_stop", "mode_switch", "listing_permuted", "listing_last_not_max",
           "anyop_crash_fired", "restart_raised", "restart_after_midcrash_ok", "torn_partial", "torn_buffer_lost",
-          "zero_iteration_restart", "parallel_segment", "tetra_grid", "sweep_sites", "sweep_complete",
-          "extra_points_zero_weight"]
+          "zero_iteration_restart", "parallel_segment", "tetra_grid", "extra_points_zero_weight"]
+PROBES_THOROUGH = ["sweep_sites", "sweep_complete"]
 REAL = ["run_grid.run (restart branch), read_factors/write_factors", "run_grid.process", "Grid/GridTetra",
         "Kpoint classes (pickle round trip, dump/get results)", "exclude_equiv_points", "ResultDict/EnergyResult"]
 STUB = ["Data_K (StubData) and calculators with known payload", "ray (SimRay) in parallel segments",
@@ -186,6 +186,15 @@ def _simulate(dec, rec, tier, scr):
         return dict(base, verdict="inconclusive", kind="reference_failed", sig=None, nontrivial=False,
                     message=f"reference run failed: {ref.exc or ref.livelock} ({len(ref.iterations)} iterations)")
     refdata = {it["i_iter"]: it for it in ref.iterations}
+    if cls != "boundary":
+        # soundness guard of the relaxed oracle (DESIGN 2.7): if two K-points of the reference run tie in a refinement
+        # criterion, which of them is refined depends on the list order, and the order legitimately differs after a
+        # mid-iteration kill (extra zero-weight points): such a history cannot be compared -> inconclusive
+        gaps = [it.get("selection_gap") for it in ref.iterations[:-1]]
+        if any(g is not None and g < 1e-9 for g in gaps):
+            rec.fire("selection_tie_guard")
+            return dict(base, verdict="inconclusive", kind="selection_tie", sig=None, nontrivial=False,
+                        message="two K-points of the reference run tie in a refinement criterion")
 
     def scale_of(i, key):
         return weighted_sum(ref.obs, refdata[i]["klist"], key)[1]
